@@ -1,6 +1,6 @@
 """C02 - Assembler accepts exactly the well-formed programs: no-panic clause (R3) and the shape
 of the guards that produce each error kind (R4, interval-normalised)."""
-from lib import r3, panics
+from lib import r3, panics, nf
 from lib.mir import short
 import discharge
 
@@ -109,17 +109,17 @@ def run(ck, ctx):
     # --- add_label: conflict iff occupied and address differs
     al = F.bodies.get("asm::SymbolTable::new::add_label")
     if ck.anchor(rule, "add_label", al):
+        # complete path condition of the block that builds the error (every decision on every path, positive form):
+        # entry occupied (discriminant 0) and not (occupied.addr == addr parameter) - whatever the spelling of the test
         ok = False
+        conds = []
+        E = "HashMap::entry(arg1, to_uppercase(deref(arg2.name)))"
         for bb, bi in ks.get("OverlappingLabels", []):
             if bb is al:
-                for d in sorted(al.dominators().get(bi, ())):
-                    t = al.blocks[d]["term"]
-                    if t["k"] == "switch":
-                        e = panics._unwrap_var(al.expr_of_operand(t["discr"]))
-                        if e[0] == "bin" and e[1] == "Ne" and "'addr'" in repr(e[2]) and e[3][0] == "arg" and e[3][2] == "addr":
-                            if al.dominates(t["otherwise"], bi):
-                                ok = True
-        ck.ob(rule, "add_label:conflict", ok, "OverlappingLabels is produced on the edge occupied.addr != addr", "src/asm.rs:%s" % al.line)
+                c = nf.complete_conds(al, bi)
+                conds.append(c)
+                ok = c == "Eq(OccupiedEntry::get(%s as Occupied.0).addr, arg3)=0 & discr(%s)=0" % (E, E)
+        ck.ob(rule, "add_label:conflict", ok and len(conds) == 1, "OverlappingLabels is produced exactly when the entry is occupied and occupied.addr != addr: %s" % conds, "src/asm.rs:%s" % al.line)
         key_ok = any(callee and callee.endswith("<impl str>::to_uppercase") for _, _, callee, _ in al.calls())
         ck.ob(rule, "add_label:key-uppercase", key_ok, "the map key is label.name.to_uppercase()", "src/asm.rs:%s" % al.line)
 
